@@ -369,6 +369,27 @@ func srvRunCase(o *common.Out, id string, nconn int, reqs []sreqCase, order []in
 			fail("extra-response", fmt.Sprintf("connection %d carries an extra frame: %s", c, showView(v, nil, -1)))
 		}
 	}
+	// a router handler is user code that runs for every request routed to it, also when it then fails to bind its
+	// arguments and also for one-way requests, which nothing else waits for: wait until it has been noted
+	for rid, q := range reqs {
+		if q.style == "router" && !q.hb && !q.handlerRuns() {
+			deadline := time.Now().Add(3 * time.Second)
+			for time.Now().Before(deadline) {
+				rig.h.mu.Lock()
+				seen := false
+				for _, x := range rig.h.invoked {
+					if x == rid {
+						seen = true
+					}
+				}
+				rig.h.mu.Unlock()
+				if seen {
+					break
+				}
+				time.Sleep(200 * time.Microsecond)
+			}
+		}
+	}
 	// the handlers that ran
 	rig.h.mu.Lock()
 	for _, sh := range rig.h.shared {
